@@ -27,6 +27,25 @@ def shipped_dir(name):
     return os.path.join(scratch.REPO, "Rules", name)
 
 
+def tool_dir(name):
+    """the copy of a shipped ruleset that REPOSITORY code is pointed at (loaders, guesser, scorer, real processes): a change
+    to the repository may write into a ruleset directory, and nothing may ever be written under /repo.  The reference
+    readers (my own code, read-only) use shipped_dir() directly.  The copy (19 + 23 MB on tmpfs) is made once, by the
+    parent process, before the jobs of a phase are forked."""
+    import shutil
+    root = os.path.dirname(scratch.code_dir())
+    dst = os.path.join(root, "shipped", name)
+    if not os.path.isdir(dst):
+        tmp = dst + ".tmp%d" % os.getpid()
+        os.makedirs(os.path.dirname(dst), exist_ok=True)
+        shutil.copytree(shipped_dir(name), tmp)
+        try:
+            os.rename(tmp, dst)
+        except OSError:
+            shutil.rmtree(tmp, ignore_errors=True)
+    return dst
+
+
 def available():
     return [n for n in SHIPPED if os.path.isfile(os.path.join(shipped_dir(n), "config.ini"))]
 
@@ -123,7 +142,7 @@ def judge_prefix(ref, pops, slack=1e-12):
 def pop_prefix(name, n, skip_brute=False, skip_case=False):
     """the first n pops of the real queue on a shipped ruleset (no expansion)"""
     with guesser.streams():
-        pcfg = guesser.load(shipped_dir(name), skip_brute, skip_case, name=name)
+        pcfg = guesser.load(tool_dir(name), skip_brute, skip_case, name=name)
         hist = guesser.exhaust(pcfg, max_pops=n, expand=False)
     return [(h["pt"], h["prob"], h["base_prob"]) for h in hist if not h.get("overflow")]
 
@@ -136,7 +155,7 @@ def link_ruleset(name):
     os.makedirs(os.path.join(wr, "Rules"), exist_ok=True)
     dst = os.path.join(wr, "Rules", name)
     if not os.path.islink(dst) and not os.path.exists(dst):
-        os.symlink(shipped_dir(name), dst)
+        os.symlink(tool_dir(name), dst)
     return wr
 
 
@@ -252,6 +271,8 @@ def _fan_out(fn, jobs, workers=8, timeout=1500):
     import multiprocessing as mp
     jobs = [(fn,) + tuple(j) for j in jobs]
     fn = _guarded
+    for n in available():
+        tool_dir(n)
     with cf.ProcessPoolExecutor(max_workers=max(1, min(workers, len(jobs))), mp_context=mp.get_context("fork")) as ex:
         futs = [ex.submit(fn, *j) for j in jobs]
         return [f.result(timeout=timeout) for f in futs]
@@ -432,7 +453,7 @@ def _prince_job(name, lower, n, m, hash_seed, n_file=None):
     lnk = os.path.join(code, "Rules", name)
     if not os.path.islink(lnk) and not os.path.exists(lnk):
         try:
-            os.symlink(shipped_dir(name), lnk)
+            os.symlink(tool_dir(name), lnk)
         except FileExistsError:
             pass
     base = ["-r", name] + (["--all_lower"] if lower else [])
@@ -694,7 +715,7 @@ def _scorer_job(name, n_pops, seed):
     rec = guesser.LineRecorder()
     strings = {}
     with guesser.streams(rec, guesser.Sink()):
-        pcfg = guesser.load(shipped_dir(name), name=name)
+        pcfg = guesser.load(tool_dir(name), name=name)
         q = PcfgQueue(pcfg)
         last = None
         for _ in range(n_pops):
@@ -708,7 +729,7 @@ def _scorer_job(name, n_pops, seed):
             pcfg.create_guesses(item["pt"])
             for s in guesser.split_lines(rec.take()):
                 strings.setdefault(s, []).append(item["prob"])
-        sc = endtoend.make_scorer(shipped_dir(name), 0)
+        sc = endtoend.make_scorer(tool_dir(name), 0)
     if sc is None or last is None:
         out["problem"] = ("scorer_cannot_load", {})
         return out
@@ -807,7 +828,7 @@ def _expansion_job(name, flags, n_pops, max_level_strings=40000):
     rec = guesser.LineRecorder()
     shapes = {tuple(b["replacements"]) for b in ref.base}
     with guesser.streams(rec, guesser.Sink()):
-        pcfg = guesser.load(shipped_dir(name), sb, sc_, name=name)
+        pcfg = guesser.load(tool_dir(name), sb, sc_, name=name)
         q = PcfgQueue(pcfg)
         for _ in range(n_pops):
             item = q.next()
@@ -920,7 +941,7 @@ def _omen_model_job(prop, seed, levels=(1, 2, 3)):
     from lib_guesser.omen.markov_cracker import MarkovCracker
     from lib_guesser.omen.optimizer import Optimizer
     t = Tape(seed=seed)
-    odir = os.path.join(shipped_dir("Default"), "Omen")
+    odir = os.path.join(tool_dir("Default"), "Omen")
     out = {"problem": None, "levels": 0, "strings": 0, "scored": 0}
     g = omen_check.load_omen(odir)
     if g is None:
@@ -967,7 +988,7 @@ def _omen_model_job(prop, seed, levels=(1, 2, 3)):
         return out
     from lib_scorer.omen_scorer import OmenScorer
     with guesser.streams():
-        sc = OmenScorer(shipped_dir("Default"), ro.encoding if hasattr(ro, "encoding") else "utf-8", t.choice([9, 9, 3, 18, 1]))
+        sc = OmenScorer(tool_dir("Default"), ro.encoding if hasattr(ro, "encoding") else "utf-8", t.choice([9, 9, 3, 18, 1]))
     pool = sorted(want[1]) + sorted(want[2]) + [s for i, s in enumerate(sorted(want.get(3, ()))) if i % 7 == seed % 7]
     cands = list(pool)
     for _ in range(1500):
